@@ -285,6 +285,70 @@ func runC15Representations(c *Ctx) {
 			c.Law(err3 == nil && same(sv, re), "C15/canonical-string", "the canonical string form re-parses to an equal value", in, sv.String())
 		}
 	}
+	// ---- starting from literal texts (every layout, with and without an offset, fractions of one to six
+	// digits, values below a millisecond included): text -> System -> element -> System, and text -> System -> text
+	{
+		fr := []string{"", ".0", ".5", ".12", ".000", ".120", ".999", ".0004", ".0010", ".000400", ".123456", ".000001", ".100000", ".00040"}
+		offs := []string{"", "Z", "+05:30", "-11:00", "+00:00"}
+		for _, d := range []string{"2020-01-01", "1999-12-31", "2024-02-29"} {
+			for _, hms := range []string{"10:00:00", "23:59:59", "00:00:00"} {
+				for _, f := range fr {
+					for _, o := range offs {
+						txt := d + "T" + hms + f + o
+						sv, err := system.ParseDateTime(txt)
+						in := "DateTime literal @" + txt
+						c.Observe(in, true)
+						if err != nil {
+							c.Law(false, "C15/literal-read", "a valid date/time literal is read", in, err.Error())
+							continue
+						}
+						again, err2 := system.DateTimeFromProto(sv.ToProtoDateTime())
+						c.Law(err2 == nil && same(sv, again), "C15/system-element-system", "System -> element -> System preserves value, precision and offset", in, observeTemporal(sv)+" vs "+observeTemporal(again))
+						re, err3 := system.ParseDateTime(sv.String())
+						c.Law(err3 == nil && same(sv, re), "C15/canonical-string", "the canonical string form re-parses to an equal value", in, fmt.Sprintf("%s -> %q", observeTemporal(sv), sv.String()))
+					}
+				}
+			}
+			for _, part := range []string{d, d[:7], d[:4]} {
+				for _, mk := range []string{"", "T"} {
+					in := "literal @" + part + mk
+					if mk == "T" {
+						sv, err := system.ParseDateTime(part + mk)
+						if err != nil {
+							c.Law(false, "C15/literal-read", "a valid date/time literal is read", in, err.Error())
+							continue
+						}
+						again, err2 := system.DateTimeFromProto(sv.ToProtoDateTime())
+						c.Law(err2 == nil && same(sv, again), "C15/system-element-system", "System -> element -> System preserves value, precision and offset", in, observeTemporal(sv)+" vs "+observeTemporal(again))
+					} else {
+						sv, err := system.ParseDate(part)
+						if err != nil {
+							c.Law(false, "C15/literal-read", "a valid date/time literal is read", in, err.Error())
+							continue
+						}
+						again, err2 := system.DateFromProto(sv.ToProtoDate())
+						c.Law(err2 == nil && same(sv, again), "C15/system-element-system", "System -> element -> System preserves value and precision", in, observeTemporal(sv)+" vs "+observeTemporal(again))
+					}
+				}
+			}
+		}
+		for _, hms := range []string{"10:00:00", "23:59:59", "00:00:00"} {
+			for _, f := range fr {
+				txt := hms + f
+				in := "Time literal @T" + txt
+				c.Observe(in, true)
+				sv, err := system.ParseTime(txt)
+				if err != nil {
+					c.Law(false, "C15/literal-read", "a valid date/time literal is read", in, err.Error())
+					continue
+				}
+				again := system.TimeFromProto(sv.ToProtoTime())
+				c.Law(same(sv, again), "C15/system-element-system", "System -> element -> System preserves value and precision", in, observeTemporal(sv)+" vs "+observeTemporal(again))
+				re, err3 := system.ParseTime(sv.String())
+				c.Law(err3 == nil && same(sv, re), "C15/canonical-string", "the canonical string form re-parses to an equal value", in, fmt.Sprintf("%s -> %q", observeTemporal(sv), sv.String()))
+			}
+		}
+	}
 	// ---- Integer literals: decimal digits, leading zeros allowed, nothing else
 	for _, n := range []int64{0, 1, 7, 8, 9, 10, 64, 100, 777, 2147483647} {
 		for zeros := 0; zeros <= 3; zeros++ {
